@@ -322,21 +322,24 @@ def r6_layout(ctx):
                   f"`{rhs}` may hold a repeated (ID, TIME) entry when joined onto the requested index: a request with a repeated age returns more rows than requested (4 -> 6)")
 
 
-def r8_conditioning(ctx):
+def r8_conditioning(ctx, rid="C09.R8", title=None):
     """The closed form is evaluated in single precision.  An algebraically equal re-arrangement that subtracts two quantities tending to
     the same limit (`1 - 1/(1+g)` for small g) loses every significant digit there: the value is no longer the closed form (up to
     rounding) but 0 / inf / NaN.  Decided symbolically for the one-parameter formula functions (`metric(g)`, `metric(g_deltas_exp)`), whose
     parameter ranges over (0, +inf): for every difference `a - b` (resp. `a + b` with opposite signs) in the function, with temporaries
     substituted, lim a/b at 0+ and at +inf must not be 1."""
-    ctx.rule("C09.R8", "one-parameter formula functions of the trajectory (metric) subtract no two quantities with the same limit on (0, +inf)", 2)
+    ctx.rule(rid, title or "one-parameter formula functions of the trajectory (metric) subtract no two quantities with the same limit on (0, +inf)", 2)
     from ..astq import Inliner
     x = sp.Symbol("x", positive=True)
     n = 0
     for f in ctx.ix.iter_funcs():
-        if f.name != "metric" or not f.mod.startswith("leaspy.models") or f.cls is None:
+        if not f.mod.startswith("leaspy.models") or f.cls is None:
             continue
         kws = [p.arg for p in f.node.args.kwonlyargs + f.node.args.args if p.arg not in ("self", "cls")]
         if len(kws) != 1:
+            continue
+        # functions of one positive quantity ranging over (0, +inf): `metric(<positions>)`, and anything computed from `g = exp(log_g)` alone
+        if f.name != "metric" and kws[0] != "g":
             continue
         n += 1
         inl = Inliner(f.node)
@@ -355,11 +358,11 @@ def r8_conditioning(ctx):
                         bad = (sub, pt, la)
             except (NFUnsupported, NotImplementedError, ValueError, TypeError, AttributeError):
                 continue
-        ctx.check(bad is None, "C09.R8", f, bad[0] if bad else f.node, f"{f.qual}: no cancelling difference on (0, +inf)",
+        ctx.check(bad is None, rid, f, bad[0] if bad else f.node, f"{f.qual}: no cancelling difference on (0, +inf)",
                   f"`{U(bad[0])[:60] if bad else ''}` subtracts two quantities that both tend to {bad[2] if bad else ''} when {kws[0]} -> {bad[1] if bad else ''}: in single precision the difference "
                   "loses all its digits there (the metric becomes inf, the trajectory NaN / 0 instead of the closed form)")
     if n == 0:
-        raise AnalysisError("C09.R8", "anchor vanished: metric(g) functions of the models")
+        raise AnalysisError(rid, "anchor vanished: metric(g) functions of the models")
 
 
 def r7_requested_ages(ctx):
